@@ -34,6 +34,15 @@ CHECKS = {
             "values and compared with plain bit arithmetic, at run time and in constant expressions, under UBSan.",
             "32/64-bit values are sampled; g++12/clang++14 only",
             "DESIGN.md section 3, C15"),
+    "C12": ("exploration",
+            "in-process index-arithmetic oracle over every iterator expression in a small scope on hand-laid images, "
+            "ASan+UBSan (pointer/signed overflow), sbepp assertion handler",
+            "For all 16 (numInGroup, blockLength) type pairs sbeppc generates a flat and a nested group; every iterator "
+            "expression up to depth 2 (quick) / 3 (thorough), all comparisons/distances for all index pairs, container "
+            "accessors and resize/clear are executed on images laid out by hand (sizes 0..3/4, wire block lengths "
+            "0/1/4) and compared by address and index; complete inside that scope.",
+            "scope bounds as stated; little-endian schema only (byte order is orthogonal to iterator arithmetic)",
+            "DESIGN.md section 3, C12"),
 }
 
 
